@@ -31,17 +31,17 @@ type Violation struct {
 }
 
 type Report struct {
-	Family      string         `json:"family"`
-	Seed        int64          `json:"seed"`
-	Tier        string         `json:"tier"`
-	Evaluations int            `json:"evaluations"`     // implementation executions
-	Cases       int            `json:"cases"`           // cases handed to the model
-	Distinct    int            `json:"distinct"`        // distinct non-trivial cases (by hash of case text)
-	Rule        string         `json:"rule"`            // what makes a case non-trivial
-	Dist        map[string]int `json:"distribution"`    // input distribution
-	Samples     []string       `json:"samples"`         // a few cases written out
-	Violations  []Violation    `json:"oracle_violations"` // direct property oracle failures
-	CaseFiles   []string       `json:"case_files"`
+	Family      string              `json:"family"`
+	Seed        int64               `json:"seed"`
+	Tier        string              `json:"tier"`
+	Evaluations int                 `json:"evaluations"`       // implementation executions
+	Cases       int                 `json:"cases"`             // cases handed to the model
+	Distinct    int                 `json:"distinct"`          // distinct non-trivial cases (by hash of case text)
+	Rule        string              `json:"rule"`              // what makes a case non-trivial
+	Dist        map[string]int      `json:"distribution"`      // input distribution
+	Samples     []string            `json:"samples"`           // a few cases written out
+	Violations  []Violation         `json:"oracle_violations"` // direct property oracle failures
+	CaseFiles   []string            `json:"case_files"`
 	CaseIndex   map[string][]string `json:"case_index"` // file -> per-case input description (for replays)
 }
 
@@ -72,17 +72,17 @@ func (r *Report) write(dir string) {
 // ---------------------------------------------------------------------------
 
 type CaseWriter struct {
-	dir      string
-	family   string
-	corr     string // Corr module, e.g. "Corr_codec"
-	typ      string // case record type
-	chk      string // check function
-	perFile  int
-	cur      []string
-	curDesc  []string
-	nfile    int
-	report   *Report
-	seen     map[[32]byte]bool
+	dir     string
+	family  string
+	corr    string // Corr module, e.g. "Corr_codec"
+	typ     string // case record type
+	chk     string // check function
+	perFile int
+	cur     []string
+	curDesc []string
+	nfile   int
+	report  *Report
+	seen    map[[32]byte]bool
 }
 
 func newCaseWriter(dir, family, corr, typ, chk string, perFile int, rep *Report) *CaseWriter {
